@@ -15,6 +15,7 @@ LEVEL_TEXT = ("Partial by construction: CPython's pickle/copy do the copying and
 LEVEL_NOTE = ("Trusted: CPython's pickle/copy/__reduce_ex__ machinery and the pickle byte stream (not modelled); Lean kernel, standard "
               "axioms; the mirror lean/Anytree/Model/Attr.lean. Protocols 0-1 are skipped for __slots__ classes (a restriction of "
               "Python itself).")
+MODULES = ['Anytree.Props.C19', 'Anytree.Props.C19b']
 THEOREMS = [
     ("Anytree.Props.C19.lookup_guarded_terminates", "partial"),
     ("Anytree.Props.C19.lookup_restored", "partial"),
@@ -24,9 +25,22 @@ THEOREMS = [
     ("Anytree.Props.C19.mem_reach_iff", "partial"),
     ("Anytree.Props.C19.same_tree_of_conn", "partial"),
     ("Anytree.Props.C19.lookup_unguarded_diverges", "witness"),
+    ("Anytree.Props.C19b.copy_inv", "partial"),
+    ("Anytree.Props.C19b.copy_size", "partial"),
+    ("Anytree.Props.C19b.copy_entry", "partial"),
+    ("Anytree.Props.C19b.copy_bijection", "partial"),
+    ("Anytree.Props.C19b.copy_parent_iff", "partial"),
+    ("Anytree.Props.C19b.copy_children_eq", "partial"),
+    ("Anytree.Props.C19b.copy_target_iff", "partial"),
+    ("Anytree.Props.C19b.copy_target_total", "partial"),
+    ("Anytree.Props.C19b.copy_shape", "partial"),
+    ("Anytree.Props.C19b.copy_shape_entry", "partial"),
+    ("Anytree.Props.C19b.same_tree_mem_reach", "partial"),
+    ("Anytree.Props.C19b.copy_only_connected", "partial"),
+    ("Anytree.Props.C19b.copy_congr", "partial"),
+    ("Anytree.Props.C19b.deepcopy_correct", "partial"),
 ]
-NOT_COVERED = ["the copy itself (isomorphism, disjointness, independence) is performed by CPython and is established by the "
-               "correspondence run over every entry node and protocol, not by a theorem"]
+NOT_COVERED = ["that CPython's pickle/copy actually perform the copy of exactly the reachable object graph with fresh identities (the function copyForest of the model) is established by the correspondence run over every entry node and protocol, not by a theorem; given that, consistency, isomorphism, entry position, targets and completeness of the copy are proved (deepcopy_correct)"]
 PREDICATE_SPEC = True
 KINDS = ["node", "anynode", "user", "falsy", "eq", "symlink", "symlink"]
 RULE = ("seeded random forests of 3-8 (thorough 12) objects of classes Node/AnyNode/user NodeMixin/SymlinkNode (links to earlier "
